@@ -215,6 +215,74 @@ func (s *VerifStore) Tick() error {
 	}
 }
 
+// TickInside arms the manual clock so that the flush timer fires while the next statement is between its page
+// changes and its log append: at the statement's first write call on the log the tick is delivered, and the statement
+// goes on as soon as the flusher either asks for the exclusive lock (it then has to wait for the statement to end) or
+// has completed its flush (an engine whose flush does not wait for statements). onFlushStart runs on the flusher
+// goroutine when the flush begins (lock taken, nothing written yet). The returned function is called after the
+// statement has returned: it waits for the flush to end. fired: the statement did write to the log, so the timer was
+// fired; inside: the flush ran to its end while the statement was still at its first log write.
+func (s *VerifStore) TickInside(onFlushStart func()) (finish func() (fired, inside bool, err error)) {
+	if s.ch == nil || s.Dead {
+		panic("verif: TickInside on a store without a controllable flusher")
+	}
+	prevWal, prevPoint := vhWalWrite, vhPoint
+	lockAsked := make(chan struct{}, 4)
+	var fired, inside, gotDone bool
+	var doneErr error
+	session := verifGoid()
+	vhPoint = func(f *fileStore, kind string) {
+		if prevPoint != nil {
+			prevPoint(f, kind)
+		}
+		if f != s.fs || verifGoid() == session {
+			return
+		}
+		switch kind {
+		case "lock":
+			select {
+			case lockAsked <- struct{}{}:
+			default:
+			}
+		case "flushStart":
+			if onFlushStart != nil {
+				onFlushStart()
+			}
+		}
+	}
+	vhWalWrite = func(w *wal, data []byte) {
+		if !fired && verifGoid() == session {
+			fired = true
+			select {
+			case s.ch <- time.Time{}:
+			case <-time.After(60 * time.Second):
+				panic("verif: flusher goroutine did not take the tick within 60s")
+			}
+			select {
+			case <-lockAsked:
+			case doneErr = <-s.done:
+				gotDone, inside = true, true
+			case <-time.After(60 * time.Second):
+				panic("verif: flusher neither asked for the lock nor finished within 60s")
+			}
+		}
+		if prevWal != nil {
+			prevWal(w, data)
+		}
+	}
+	return func() (bool, bool, error) {
+		if fired && !gotDone {
+			select {
+			case doneErr = <-s.done:
+			case <-time.After(60 * time.Second):
+				panic("verif: flusher goroutine did not finish the flush within 60s")
+			}
+		}
+		vhWalWrite, vhPoint = prevWal, prevPoint
+		return fired, inside, doneErr
+	}
+}
+
 // Alive reports whether the store's file is still open (close() stops the
 // flusher goroutine before closing the file).
 func (s *VerifStore) Alive() bool {
